@@ -182,6 +182,9 @@ vars == <<c, callV, mtx, g, protoV, peerV, inbox, bad, handV, buf, stopped, mux,
 
 A == Table.apis[c.a]
 N == NStages(A)
+\* the case is one in which the silence lasts until a state timeout fires; the silence has begun
+EndsTmo == Len(c.s) > 0 /\ c.s[Len(c.s)] = "tmo"
+Late == EndsTmo /\ pi > Len(c.s)
 St(k) == A.stages[k]
 Rep(k, j) == St(k).replies[j]
 RepIdx(k) == 1..Len(St(k).replies)
@@ -451,6 +454,7 @@ Peer ==
           /\ UNCHANGED <<pk, bad, eof, last>>
        \/ /\ x = "trunc" /\ Asked(pk) /\ UNCHANGED <<inbox, pk, bad, eof, last>>
        \/ /\ x = "stall" /\ UNCHANGED <<inbox, pk, bad, eof, last>>
+       \/ /\ x = "tmo" /\ Asked(pk) /\ UNCHANGED <<inbox, pk, bad, eof, last>>      \* from here on TimeoutFires is enabled
        \/ /\ x \in {"close", "muxerr"} /\ eof' = TRUE /\ UNCHANGED <<inbox, pk, bad, last>>
     /\ pi' = pi + 1
     /\ UNCHANGED <<inst2, c, callV, mtx, g, protoV, handV, buf, stopped, mux, done, cleaned, connV, userV>>
@@ -463,8 +467,9 @@ UserFrame == UNCHANGED <<inst2, c, callV, g, protoV, peerV, inbox, bad, handV, b
                          perr, merr, fP, fM, sh, connClosed, errClosed, unsafeClose>>
 
 \* Close() once the script is played and the call has returned or nothing moves in the library any more
+\* (a script that ends in tmo: only then - the user does not end the silence, the timeout does)
 UserClose ==
-    /\ uc = "no" /\ PeerDone /\ (cpc = "ret" \/ ~ENABLED Library)
+    /\ uc = "no" /\ PeerDone /\ ((cpc = "ret" /\ ~EndsTmo) \/ ~ENABLED Library)
     /\ uc' = "in" /\ closeSig' = TRUE
     /\ UNCHANGED <<c2, mtx, drain>> /\ UserFrame
 UserCloseRet ==
@@ -486,7 +491,7 @@ Next == Library \/ Peer \/ User
 Spec == Init /\ [][Next]_vars
         /\ WF_vars(Caller) /\ WF_vars(Peer) /\ WF_vars(User)
         /\ WF_vars(RecvLoop)                        \* recvLoop and the handler inside it
-        /\ WF_vars(SLExit) /\ WF_vars(RDError)
+        /\ WF_vars(SLExit) /\ WF_vars(RDError) /\ WF_vars(TimeoutFires)
         /\ WF_vars(Closer) /\ WF_vars(Cleanup) /\ WF_vars(Watcher) /\ WF_vars(Inst2Exit)
         /\ WF_vars(MuxEof) /\ WF_vars(FwdP) /\ WF_vars(FwdM) /\ WF_vars(Shutdown)
 
@@ -496,7 +501,7 @@ Spec == Init /\ [][Next]_vars
 TypeOK ==
     /\ cpc \in {"lock", "send", "sendbg", "wait", "ret"} /\ ck \in 1..N /\ rv \in {"", "ok", "err"}
     /\ c2 \in {"idle", "send", "ret"} /\ mtx \in 0..3
-    /\ ps \in 0..N /\ ag \in {"cli", "srv"} /\ sent \in 0..N
+    /\ ps \in 0..N /\ ag \in {"cli", "srv"} /\ sent \in 0..N /\ timer \in {"off", "armed", "fired"}
     /\ pi \in 1..(Len(S) + 1) /\ pk \in 1..(N + 1)
     /\ hk \in 0..N /\ (hk # 0 => hj \in RepIdx(hk))
     /\ mux \in {"up", "down"} /\ uc \in {"no", "in", "ret"}
@@ -510,6 +515,10 @@ CleanAfterDone == cleaned => done
 \* ErrorChan is not closed under a forwarder that still has an error to deliver (send on closed channel)
 ErrorChanSafe == ~unsafeClose /\ (errClosed => (fP # "send" /\ fM # "send"))
 MutexOwner == (mtx = 1 => cpc # "ret") /\ (mtx = 2 => c2 = "send")
+\* a timer is armed only while the protocol waits for the peer in a timed state; one that has fired has stopped the
+\* protocol, and fires only in the cases that say so
+TimerSound == /\ (timer = "armed" => (ag = "srv" /\ ps \in 1..N /\ St(ps).timed))
+              /\ (timer = "fired" => (stopped /\ EndsTmo))
 
 ConnEnded == mux = "down"
 CallReturned == cpc = "ret"
@@ -522,6 +531,11 @@ Alive == {n \in GNames : g[n]} \cup (IF ReadAlive THEN {"read"} ELSE {}) \cup (I
 NoGoroutines == Alive = {}
 
 Terminal == ~ENABLED Next
+\* silence that lasts beyond the state timeout ends the protocol (by the timeout, or by an error that came first)
+TimeoutEndsSilence == (Terminal /\ EndsTmo) => stopped
+\* the stateLoop does not outlive the connection - in particular not because of a timer it still holds
+\* (Design = "keeptimer" violates this in every case whose timeout fires: ClientApiKeepTimer.cfg, TLC has to reject it)
+StateLoopEnds == Terminal => ~StateAlive
 
 \* liveness, as the property states it
 CallReturns == ConnEnded ~> CallReturned
@@ -529,6 +543,8 @@ CloseCompletes == CloseCalled ~> (CloseReturned /\ errClosed /\ NoGoroutines)
 SecondCallReturns == CloseReturned ~> (c2 = "ret")
 \* the user always gets to close: every behaviour plays the whole script and closes
 ScriptPlayed == <>(PeerDone /\ CloseCalled)
+\* once the silence of a tmo case has begun the protocol stops, whatever the call is doing
+SilenceTimesOut == Late ~> stopped
 
 --------------------------------------------------------------------------
 (* emission: every case once, and the observation of every terminal state *)
@@ -542,6 +558,6 @@ EmitOutcome ==
         Write([api |-> A.name, script |-> S,
                ret |-> cpc = "ret", rv |-> rv, ret2 |-> c2 = "ret",
                closeret |-> uc = "ret", errclosed |-> errClosed, safe |-> ~unsafeClose,
-               alive |-> SetToSeq(Alive), played |-> pi - 1,
+               alive |-> SetToSeq(Alive), played |-> pi - 1, tmo |-> timer = "fired",
                blocked |-> IF hk = 0 THEN "" ELSE Rep(hk, hj).handler])
 ==============================================================================
